@@ -7,6 +7,8 @@
                                                     process killed, next process opens the file
        label: X (row added) Xi (ignored duplicate) X! (IntegrityError) C (real commit) D (deferred commit)
               R (returned) en ex exC xx ;  rows / acks are printed as `=` when unchanged from the previous entry
+  causal d:<t>.<k>><t>.<k> … <call> …   does the workload write every record after the one it points to (dependency
+                              table given by the d: tokens; absent = genesis)?  `true` | `false`
   open <cls> <option> <version> <n>   a file whose option table / version row exist or not; an open() is killed after
                               n statements of the schema script; then a complete open():
                               `ok <tables> <option> <version>` | `error`
@@ -130,6 +132,24 @@ def step (_ : Unit) (toks : List String) : Unit × String :=
         let s2 := openEnd script s1
         pure s!"ok {Proto.showNatList s2.tables} {if s2.option then 1 else 0} {if s2.version then 1 else 0}"
       else pure "error"
+    | "causal" :: rest => do
+      -- causal d:<t>.<k>>(<t>.<k>) … <call> <call> …
+      let depToks := rest.filter (fun t => t.startsWith "d:")
+      let callToks := rest.filter (fun t => !t.startsWith "d:")
+      let deps ← depToks.mapM (fun t => do
+        match Proto.splitChar (String.ofList (t.toList.drop 2)) '>' with
+        | [a, b] =>
+          match Proto.splitChar a '.', Proto.splitChar b '.' with
+          | [t1, k1], [t2, k2] => do
+            let t1 ← t1.toNat?
+            let k1 ← k1.toNat?
+            let t2 ← t2.toNat?
+            let k2 ← k2.toNat?
+            pure ((t1, k1), (t2, k2))
+          | _, _ => none
+        | _ => none)
+      let W ← parseCalls 0 callToks
+      pure (toString (causalCheck (depOfList deps) W))
     | ["methods"] => pure (toString Gen.insertMethods.length)
     | _ => none
   ((), r.getD "bad-op")
